@@ -797,7 +797,10 @@ def rule_header_imports(ctx: Ctx, rid="C14.HEADER-COVERS-FREE-NAMES"):
                 ctx.rep.check(good, rid, con, f"imported from {m}, defined at {m2.site(node) if good and hasattr(node, 'lineno') else m}"
                               if good else f"{m} does not define {n}", text=f"{name}|{m}.{n}")
             else:
-                ctx.rep.check(m.split(".")[0] in ("functools",), rid, con, f"imported from stdlib module {m}",
+                import sys as _sys
+                ctx.rep.check(m.split(".")[0] in getattr(_sys, "stdlib_module_names", ("functools", "math", "itertools", "operator")), rid, con,
+                              f"imported from stdlib module {m}" if m.split(".")[0] in getattr(_sys, "stdlib_module_names", ()) else
+                              f"imported from {m}, which is neither in the package nor in the standard library",
                               text=f"{name}|{m}.{n}")
             # evaluator globals: exec(..., None, code_holder) gives the function the evaluator module's globals
             src2, attr2 = ev.imports.get(name, (None, None))
